@@ -19,6 +19,7 @@ var propExplain = map[string]string{
 }
 
 func init() {
+	propExplain["C08"] = "Proved for all inputs, as postconditions of the real validators: every accepted v1 siacoin/siafund input has its timelock expired and (siacoins) its parent matured (<= child height); v1 contracts and revisions respect window rules and the parent's window has not opened; v2 siacoin parents are mature; v2 contracts, revisions (against the latest revision in the block), renewals, storage proofs (height >= proof height, proof index at proof height and an ancestor) and expirations (height > expiration height) obey their height rules; ValidateHeader's rule. For v1 siacoins the converse (sufficiency) is proved too, so the maturity/timelock boundary is exact."
 	propExplain["C13"] = "256-bit Work arithmetic and the v2/FinalCut difficulty retargeting, total-work update, target inversion, header application and header validation are verified against contracts for all inputs; loops over the four limbs are fully unrolled; int64 wrap-around of timestamps and durations is modelled, so the clamp and non-zero results hold for every timestamp sequence."
 	propExplain["C17"] = "RHP contract constructors and cost functions are verified against contracts taken from the property statement (exact charge, preserved totals, exact split, bounded rollover, funding identity, consensus value predicates, v1 tax equation); obligations are generated from go/ssa of the working tree and discharged by SMT for all inputs satisfying the stated preconditions."
 }
